@@ -53,4 +53,8 @@ V_wrestore(e) ==
             \/ ~PairNear(e.a[j].x, e.a[j].y, e.b[j].x, e.b[j].y, 50)
             \/ ~PairNear(e.a[j].rx, e.a[j].ry, e.b[j].rx, e.b[j].ry, 50)
             \/ ~PairNear(e.a[j].ox, e.a[j].oy, e.b[j].ox, e.b[j].oy, 50), "C09.restore_bisimilar")
+
+(* C20: refusals outside the Weaver object: constructor length mismatch, non-(N,2) array, unknown dataset / search
+   strategy / integration rule / interpolation method names *)
+V_reject_misc(e) == Fail(e.outcome # "ValueError", "C20." \o e.kind)
 =============================================================================
